@@ -279,19 +279,28 @@ class ConstantPropagationTransformer(Transformer):
             return index_initial_elements(indices[1:], element.elements[indices[0].value - 1])
 
         declarations_map = {}
+        saved_map = {}
         for symbol in getattr(routine, 'symbols', ()):
             if isinstance(symbol, sym.DeferredTypeSymbol) or symbol.initial is None:
                 continue
 
+            symbol_map = declarations_map if symbol.type.parameter else saved_map
             if isinstance(symbol, sym.Array):
-                declarations_map.update({
+                symbol_map.update({
                     (symbol.basename, indices): index_initial_elements(indices, symbol.initial)
                     for indices in _array_indices_to_accesses(
                         [sym.RangeIndex((None, None, None))] * len(symbol.shape), symbol.shape
                     )
                 })
             else:
-                declarations_map[(symbol.basename, ())] = symbol.initial
+                symbol_map[(symbol.basename, ())] = symbol.initial
+
+        # An initialised variable is implicitly saved and holds its last value
+        # when the routine is called again: the initial value is only known on
+        # entry if the routine never redefines the variable
+        if getattr(routine, 'body', None):
+            self._invalidate_defined_symbols(routine.body, saved_map)
+        declarations_map.update(saved_map)
         return declarations_map
 
 
